@@ -198,6 +198,14 @@ func (c *Ctx) callStatic(st *State, x *ast.CallExpr, fn *types.Func, recvExpr as
 		return v
 	}
 	if strings.HasPrefix(name, "sync.") {
+		// a contract file may give lock operations a (ghost) meaning, e.g. "func sync.RWMutex.RLock" setting a ghost flag,
+		// to state lock-discipline facts; by default they are no-ops
+		if rn, _ := recvNamed(fn); rn != "" && c.pkg.contracts != nil {
+			if ofc := c.pkg.contracts.Funcs["sync."+rn+"."+fn.Name()]; ofc != nil {
+				c.checkAtCall(st, x, fn)
+				return c.applyContract(st, x, c.pkg, fn, nil, ofc, nil, nil)
+			}
+		}
 		if h, ok := prelude[name]; ok {
 			return h(c, st, x, nil)
 		}
